@@ -4,6 +4,10 @@
 //! The harness holds no reference model: every judgement is made by TLC on the trace.
 
 pub mod comps;
+pub mod heap;
+
+#[global_allocator]
+static GLOBAL: heap::Tracker = heap::Tracker;
 pub mod shapes;
 pub mod queries;
 pub mod sched;
@@ -138,7 +142,7 @@ pub struct Driver {
 #[derive(Clone, Copy)]
 pub struct QFamily {
     pub n: usize,
-    pub run: fn(&mut Wd, usize, u32, Option<Identifier>) -> Value,
+    pub run: fn(&mut Wd, usize, u32, Option<Identifier>, u32) -> Value,
     pub needs_target: fn(usize) -> bool,
 }
 
@@ -246,7 +250,9 @@ impl Driver {
 
     pub fn emit(&mut self, mut ev: Value) {
         let led = drain_ledger();
+        let hp = heap::drain();
         let o = self.observe();
+        heap::drain(); // observation is not a library-protocol subject
         let extra = drain_ledger(); // observation must not create or drop anything
         let m = ev.as_object_mut().unwrap();
         m.insert(
@@ -255,6 +261,15 @@ impl Driver {
                 led.iter()
                     .chain(extra.iter())
                     .map(|l| json!({"k": l.k, "c": l.c, "t": l.t, "f": l.f}))
+                    .collect(),
+            ),
+        );
+        m.insert(
+            "heap".into(),
+            Value::Array(
+                hp.iter()
+                    .map(|h| json!({"k": h.k, "id": h.id, "s": h.size, "al": h.align, "ns": h.new_size, "nid": h.new_id,
+                                    "st": h.state, "ks": h.ksize, "ka": h.kalign, "lib": h.in_lib}))
                     .collect(),
             ),
         );
@@ -338,7 +353,8 @@ impl Driver {
             "reset" => {
                 // drop every world: afterwards the ledger must be empty (checked by TLC)
                 for s in self.ws.iter_mut() {
-                    *s = None;
+                    let old = s.take();
+                    heap::lib(move || drop(old));
                 }
                 json!({})
             }
@@ -346,12 +362,13 @@ impl Driver {
                 let v = op["vals"].as_array().unwrap();
                 let vals = [v[0].as_u64().unwrap() as u32, v[1].as_u64().unwrap() as u32, v[2].as_u64().unwrap() as u32];
                 assert!(self.ws[w - 1].is_none(), "harness: new on live world");
-                self.ws[w - 1] = Some(Slot { world: new_world(vals), issued: Vec::new() });
+                self.ws[w - 1] = Some(Slot { world: heap::lib(|| new_world(vals)), issued: Vec::new() });
                 json!({})
             }
             "drop" => {
                 assert!(self.ws[w - 1].is_some(), "harness: drop on dead world");
-                self.ws[w - 1] = None;
+                let old = self.ws[w - 1].take();
+                heap::lib(move || drop(old));
                 json!({})
             }
             "insert" => {
@@ -373,11 +390,11 @@ impl Driver {
             }
             "remove" => {
                 let id = self.resolve(w, &op["e"]);
-                self.slot(w).world.remove(id);
+                { let s = self.slot(w); heap::lib(|| s.world.remove(id)); }
                 json!({"id": idj(id)})
             }
             "clear" => {
-                self.slot(w).world.clear();
+                { let s = self.slot(w); heap::lib(|| s.world.clear()); }
                 json!({})
             }
             "add" => {
@@ -388,11 +405,11 @@ impl Driver {
                 let found = match s.world.entry(id) {
                     Some(mut e) => {
                         match c {
-                            0 => e.add(Z::fresh(v)),
-                            1 => e.add(B::fresh(v)),
-                            2 => e.add(S::fresh(v)),
-                            3 => e.add(W::fresh(v)),
-                            4 => e.add(H::fresh(v)),
+                            0 => { let x = Z::fresh(v); heap::lib(|| e.add(x)) }
+                            1 => { let x = B::fresh(v); heap::lib(|| e.add(x)) }
+                            2 => { let x = S::fresh(v); heap::lib(|| e.add(x)) }
+                            3 => { let x = W::fresh(v); heap::lib(|| e.add(x)) }
+                            4 => { let x = H::fresh(v); heap::lib(|| e.add(x)) }
                             _ => panic!("harness: bad comp"),
                         }
                         true
@@ -414,16 +431,16 @@ impl Driver {
                         for (k, cc) in [(0, c), (1, c2)] {
                             let rm = op["rm"][k].as_bool().unwrap();
                             match (cc, rm) {
-                                (0, false) => e.add(Z::fresh(v)),
-                                (1, false) => e.add(B::fresh(v)),
-                                (2, false) => e.add(S::fresh(v)),
-                                (3, false) => e.add(W::fresh(v)),
-                                (4, false) => e.add(H::fresh(v)),
-                                (0, true) => e.remove::<Z, _>(),
-                                (1, true) => e.remove::<B, _>(),
-                                (2, true) => e.remove::<S, _>(),
-                                (3, true) => e.remove::<W, _>(),
-                                (4, true) => e.remove::<H, _>(),
+                                (0, false) => { let x = Z::fresh(v); heap::lib(|| e.add(x)) }
+                                (1, false) => { let x = B::fresh(v); heap::lib(|| e.add(x)) }
+                                (2, false) => { let x = S::fresh(v); heap::lib(|| e.add(x)) }
+                                (3, false) => { let x = W::fresh(v); heap::lib(|| e.add(x)) }
+                                (4, false) => { let x = H::fresh(v); heap::lib(|| e.add(x)) }
+                                (0, true) => heap::lib(|| e.remove::<Z, _>()),
+                                (1, true) => heap::lib(|| e.remove::<B, _>()),
+                                (2, true) => heap::lib(|| e.remove::<S, _>()),
+                                (3, true) => heap::lib(|| e.remove::<W, _>()),
+                                (4, true) => heap::lib(|| e.remove::<H, _>()),
                                 _ => panic!("harness: bad comp"),
                             }
                         }
@@ -440,11 +457,11 @@ impl Driver {
                 let found = match s.world.entry(id) {
                     Some(mut e) => {
                         match c {
-                            0 => e.remove::<Z, _>(),
-                            1 => e.remove::<B, _>(),
-                            2 => e.remove::<S, _>(),
-                            3 => e.remove::<W, _>(),
-                            4 => e.remove::<H, _>(),
+                            0 => heap::lib(|| e.remove::<Z, _>()),
+                            1 => heap::lib(|| e.remove::<B, _>()),
+                            2 => heap::lib(|| e.remove::<S, _>()),
+                            3 => heap::lib(|| e.remove::<W, _>()),
+                            4 => heap::lib(|| e.remove::<H, _>()),
                             _ => panic!("harness: bad comp"),
                         }
                         true
@@ -459,7 +476,7 @@ impl Driver {
                 let mode = op["mode"].as_str().unwrap();
                 let target = if mode == "all" { None } else { Some(self.resolve(w, &op["e"])) };
                 let s = self.slot(w);
-                let n = queries::qmut(&mut s.world, c, v, mode, target);
+                let n = heap::lib(|| queries::qmut(&mut s.world, c, v, mode, target));
                 match target {
                     Some(id) => json!({"id": idj(id), "res": {"n": n}}),
                     None => json!({"res": {"n": n}}),
@@ -472,14 +489,14 @@ impl Driver {
                 json!({})
             }
             "shrink" => {
-                self.slot(w).world.shrink_to_fit();
+                { let s = self.slot(w); heap::lib(|| s.world.shrink_to_fit()); }
                 json!({})
             }
             "clone" => {
                 let dst = op["dst"].as_u64().unwrap() as usize;
                 assert!(self.ws[dst - 1].is_none(), "harness: clone into live world");
                 let s = self.slot(w);
-                let c = Slot { world: s.world.clone(), issued: s.issued.clone() };
+                let c = Slot { world: heap::lib(|| s.world.clone()), issued: s.issued.clone() };
                 self.ws[dst - 1] = Some(c);
                 json!({})
             }
@@ -489,7 +506,7 @@ impl Driver {
                 let mut d = self.ws[w - 1].take().expect("harness: clone_from dead dst");
                 {
                     let s = self.ws[src - 1].as_ref().expect("harness: clone_from dead src");
-                    d.world.clone_from(&s.world);
+                    heap::lib(|| d.world.clone_from(&s.world));
                     d.issued = s.issued.clone();
                 }
                 self.ws[w - 1] = Some(d);
@@ -500,7 +517,7 @@ impl Driver {
                 assert!(self.ws[dst - 1].is_none(), "harness: serde into live world");
                 let enc = op["enc"].as_str().unwrap();
                 let s = self.slot(w);
-                let r: Result<Wd, String> = match enc {
+                let r: Result<Wd, String> = heap::lib(|| match enc {
                     "json" => match serde_json::to_string(&s.world) {
                         Ok(text) => serde_json::from_str::<Wd>(&text).map_err(|e| format!("de: {e}")),
                         Err(e) => Err(format!("ser: {e}")),
@@ -520,7 +537,7 @@ impl Driver {
                         }
                     }
                     _ => panic!("harness: bad enc"),
-                };
+                });
                 match r {
                     Ok(world) => {
                         let issued = s.issued.clone();
@@ -536,7 +553,7 @@ impl Driver {
                 let s = self.slot(w);
                 let o = match r {
                     0 => {
-                        let x = s.world.get_mut::<RA, _>();
+                        let x = heap::lib(|| s.world.get_mut::<RA, _>());
                         x.set(v);
                         x.obs()
                     }
@@ -558,21 +575,22 @@ impl Driver {
                 let variant = op["variant"].as_u64().unwrap() as usize;
                 let v = op["v"].as_u64().unwrap() as u32;
                 let s = self.slot(w);
-                queries::viewres(&mut s.world, variant, v)
+                heap::lib(|| queries::viewres(&mut s.world, variant, v))
             }
             "query" => {
                 let qf = self.qfamily.expect("harness: no query family");
                 let q = op["q"].as_u64().unwrap() as usize % qf.n;
                 let v = op["v"].as_u64().unwrap() as u32;
                 let target = if (qf.needs_target)(q) { Some(self.resolve(w, &op["e"])) } else { None };
+                let st = op.get("st").and_then(|x| x.as_u64()).unwrap_or(0) as u32;
                 let pool = op.get("pool").and_then(|x| x.as_u64()).unwrap_or(0) as usize;
                 let s = self.slot(w);
                 let mut r = if pool > 0 {
                     let p = rayon::ThreadPoolBuilder::new().num_threads(pool).build().unwrap();
                     let world = &mut s.world;
-                    p.install(move || (qf.run)(world, q, v, target))
+                    p.install(move || (qf.run)(world, q, v, target, st))
                 } else {
-                    (qf.run)(&mut s.world, q, v, target)
+                    heap::lib(|| (qf.run)(&mut s.world, q, v, target, st))
                 };
                 if let Some(t) = target {
                     r["id"] = idj(t);
